@@ -62,6 +62,10 @@ Section Restraint.
   Definition harm_dUdk (v : var) (x c : T) : T :=
     nmul O (ndiv O half (wsq v)) (dist2 v x c).
 
+  (* harmonic energy from the squared distance of the variable's value type (unit vectors, quaternions, vectors:
+     the squared distances are those of coq/C18/ValueModel.v): 0.5 * force_k / (w*w) * dist2 *)
+  Definition harm_potential_d2 (k w d2 : T) : T := nmul O (ndiv O (nmul O half k) (nmul O w w)) d2.
+
   (* ---- linear ---- *)
   Definition lin_potential (k : T) (v : var) (x c : T) : T := nmul O (ndiv O k (v_width v)) (nsub O x c).
   Definition lin_force (k : T) (v : var) : T := nmul O (ndiv O (nmul O (nneg O (n1 O)) k) (v_width v)) (n1 O).
@@ -136,20 +140,24 @@ Section Restraint.
   Definition update_centers (c : rcfg) (s : rstate) (lam : T) : rstate :=
     let cn := new_centers c lam in
     mkSt (map2 wrapv (c_vars c) cn)
-         (map2 (fun n o => nmul O half (nmul O two (nsub O n o))) cn (s_centers s))
+         (map3 (fun v n o => nmul O half (dist2_lgrad v n o)) (c_vars c) cn (s_centers s))
          (s_k s) (s_kincr s) (s_stage s) (s_first s) (s_W s) (s_FE s).
   Definition set_incr (s : rstate) (i : list T) : rstate :=
     mkSt (s_centers s) i (s_k s) (s_kincr s) (s_stage s) (s_first s) (s_W s) (s_FE s).
   Definition set_stage (s : rstate) (g : Z) : rstate :=
     mkSt (s_centers s) (s_incr s) (s_k s) (s_kincr s) g (s_first s) (s_W s) (s_FE s).
 
-  (* colvarbias_restraint_centers_moving::update ; t = step_absolute, rel = step_relative *)
-  Definition centers_update (c : rcfg) (s : rstate) (t rel : Z) : rstate :=
+  (* a step that is computed for the first time: step_relative() > 0 && !simulation_continuing() *)
+  Definition first_time (rel : Z) (cont : bool) : bool := (0 <? rel) && negb cont.
+
+  (* colvarbias_restraint_centers_moving::update ; t = step_absolute, rel = step_relative,
+     cont = proxy->simulation_continuing() *)
+  Definition centers_update (c : rcfg) (s : rstate) (t rel : Z) (cont : bool) : rstate :=
     if c_chg_centers c then
       let s1 :=
         if negb (c_nstages c =? 0) then
           if s_stage s <=? c_nstages c then
-            if (0 <? rel) && (Z.rem (t - s_first s) (c_nsteps c) =? 1)
+            if first_time rel cont && (s_first s <? t) && (Z.rem (t - s_first s - 1) (c_nsteps c) =? 0)
             then let s' := update_centers c s (ratio (s_stage s) (c_nstages c)) in set_stage s' (s_stage s + 1)
             else set_incr s (zeros (s_incr s))
           else s
@@ -194,7 +202,7 @@ Section Restraint.
     mkSt (s_centers s) (s_incr s) k ki g (s_first s) (s_W s) fe.
 
   (* colvarbias_restraint_k_moving::update ; returns the new state and the "Lambda= .. dA/dLambda= .." log line, if any *)
-  Definition k_update (c : rcfg) (s : rstate) (t : Z) (xs : list T) : rstate * option (T * T) :=
+  Definition k_update (c : rcfg) (s : rstate) (t rel : Z) (cont : bool) (xs : list T) : rstate * option (T * T) :=
     if c_chg_k c then
       if negb (c_nstages c =? 0) then
         let s1 :=
@@ -206,11 +214,12 @@ Section Restraint.
           else s in
         let lam := stage_lambda c (s_stage s1) in
         let s2 :=
-          if (c_equil c =? 0) || (Z.rem (t - s_first s1) (c_nsteps c) >=? c_equil c)
+          if (s_first s1 <? t) && first_time rel cont &&
+             ((c_equil c =? 0) || (Z.rem (t - s_first s1) (c_nsteps c) >=? c_equil c))
           then set_k s1 (s_k s1) (s_kincr s1) (s_stage s1)
                      (nadd O (s_FE s1) (nmul O (dlambda_factor c lam) (dUdk_sum c s1 xs)))
           else s1 in
-        if (Z.rem (t - s_first s2) (c_nsteps c) =? 0) && (s_first s2 <? t) then
+        if (Z.rem (t - s_first s2) (c_nsteps c) =? 0) && (s_first s2 <? t) && first_time rel cont then
           let line := (lam, ndiv O (s_FE s2) (nofZ O (c_nsteps c - c_equil c))) in
           if s_stage s2 <? c_nstages c then
             let g := s_stage s2 + 1 in
@@ -222,7 +231,7 @@ Section Restraint.
         let lam := if c_decoupling c then nsub O (n1 O) l else l in
         let k := k_of_lambda c lam in
         (set_k s k (nsub O k (s_k s)) (s_stage s) (s_FE s), None)
-      else (s, None)
+      else (set_k s (s_k s) (n0 O) (s_stage s) (s_FE s), None)
     else (s, None).
 
   Definition set_W (s : rstate) (w : T) : rstate :=
@@ -242,16 +251,17 @@ Section Restraint.
   Record rout := mkOut { o_energy : T; o_forces : list T; o_log : option (T * T) }.
 
   (* harmonic::update / linear::update / harmonic_walls::update (walls have no centres: chg_centers = false) *)
-  Definition rstep (c : rcfg) (s : rstate) (t rel : Z) (xs : list T) : rstate * rout :=
-    let s1 := centers_update c s t rel in
-    let '(s2, line) := k_update c s1 t xs in
+  Definition rstep (c : rcfg) (s : rstate) (t rel : Z) (cont : bool) (xs : list T) : rstate * rout :=
+    let s1 := centers_update c s t rel cont in
+    let '(s2, line) := k_update c s1 t rel cont xs in
     let tm := terms c s2 xs in
     let forces := map frc3 tm in
     let s3 := work_centers c s2 t rel forces in
     let s4 := work_k c s3 rel xs in
     (s4, mkOut (sumT (map pot3 tm)) forces line).
 
-  (* what get_state_params writes and set_state_params reads back; everything else is as after init *)
+  (* what get_state_params writes and set_state_params reads back (firstStep, stage, centers, forceConstant,
+     restraintFE, accumulatedWork); everything else is as after init *)
   Definition restore (c : rcfg) (s : rstate) : rstate :=
     let moving := c_chg_centers c || c_chg_k c in
     mkSt (if c_chg_centers c then s_centers s else c_centers0 c)
@@ -260,12 +270,12 @@ Section Restraint.
          (if moving && negb (c_nstages c =? 0) then s_stage s else 0)
          (if moving then s_first s else 0)
          (if moving && c_acc_work c then s_W s else n0 O)
-         (n0 O).
+         (if c_chg_k c && negb (c_nstages c =? 0) then s_FE s else n0 O).
 
   (* ---- run protocol ---- *)
   Inductive event :=
   | EStep (xs : list T)        (* the engine advances one step *)
-  | EBoundary (xs : list T)    (* new run statement in the same process: the step is computed again *)
+  | EBoundary (xs : list T)    (* new run statement in the same process: the step is computed again with simulation_continuing() *)
   | ERestart (xs : list T).    (* state saved, new process, state loaded: step computed again with step_relative = 0 *)
 
   Definition ev_xs (e : event) : list T := match e with EStep x | EBoundary x | ERestart x => x end.
@@ -278,10 +288,38 @@ Section Restraint.
     let it := match e with EStep _ => if m_fresh m then m_it m else m_it m + 1 | _ => m_it m end in
     let itr := match e with ERestart _ => it | _ => m_itr m end in
     let s0 := match e with ERestart _ => restore c (m_st m) | _ => m_st m end in
-    let '(s1, o) := rstep c s0 it (it - itr) (ev_xs e) in
+    let cont := match e with EBoundary _ => true | _ => false end in
+    let '(s1, o) := rstep c s0 it (it - itr) cont (ev_xs e) in
     mkM it itr false s1 (m_outs m ++ [(it, s1, o)]).
 
   Definition run (c : rcfg) (evs : list event) : mstate := fold_left (mstep c) evs (init_m c).
+
+  (* ---- histogramRestraint (colvarbias_restraint_histogram::update) on scalar variables ----
+     xs = the values of the variables (vector_size = their number), refp = the (normalised) reference histogram,
+     grid point g at lower + (g + 0.5) width; pi is passed in (the C++ uses the constant PI). *)
+  Definition hist_grid (lower width : T) (G : nat) : list T :=
+    map (fun g => nadd O lower (nmul O (nadd O (nofZ O (Z.of_nat g)) half) width)) (seq 0 G).
+  Definition hist_norm (pi sigma : T) (n : nat) : T :=
+    ndiv O (n1 O) (nmul O (nmul O (nsqrt O (nmul O two pi)) sigma) (nofZ O (Z.of_nat n))).
+  Definition hist_gauss (sigma xg x : T) : T :=
+    nexp O (ndiv O (nmul O (nmul O (nneg O (n1 O)) (nsub O xg x)) (nsub O xg x)) (nmul O (nmul O two sigma) sigma)).
+  Definition hist_p (pi sigma lower width : T) (G : nat) (xs : list T) : list T :=
+    map (fun xg => fold_left (fun a x => nadd O a (nmul O (hist_norm pi sigma (length xs)) (hist_gauss sigma xg x))) xs (n0 O))
+        (hist_grid lower width G).
+  Definition hist_diff (pi sigma lower width : T) (refp xs : list T) : list T :=
+    map2 (nsub O) (hist_p pi sigma lower width (length refp) xs) refp.
+  Definition hist_kcv (k : T) (xs : list T) : T := nmul O k (nofZ O (Z.of_nat (length xs))).
+  Definition hist_energy (k pi sigma lower width : T) (refp xs : list T) : T :=
+    fold_left (fun a d => nadd O a (nmul O (nmul O (nmul O half (hist_kcv k xs)) d) d))
+              (hist_diff pi sigma lower width refp xs) (n0 O).
+  Definition hist_forces (k pi sigma lower width : T) (refp xs : list T) : list T :=
+    map (fun x =>
+           fold_left (fun a gd =>
+                        nadd O a (nmul O (nmul O (nmul O (nmul O (hist_kcv k xs) (snd gd)) (hist_norm pi sigma (length xs)))
+                                                 (hist_gauss sigma (fst gd) x))
+                                         (ndiv O (nmul O (nneg O (n1 O)) (nsub O (fst gd) x)) (nmul O sigma sigma))))
+                     (combine (hist_grid lower width (length refp)) (hist_diff pi sigma lower width refp xs)) (n0 O))
+        xs.
 
   (* ---- ABMD (colvarbias_abmd::update) ---- *)
   Record abmd_state := mkAb { ab_init : bool; ab_ref : T }.
